@@ -51,7 +51,7 @@ func runC14(ctx *Ctx, idx int) Result {
 	cfg := driver.Config{Decode: true, KeepLog: true, CB: driver.CBMask(r.Intn(64)) &^ (driver.CBAlloc | driver.CBRef)}
 	hc := HistCfg{Steps: r.Range(20, 70), NColls: r.Range(0, 4), NKeys: r.Range(3, 12), KeyClass: gen.KeyClass(r.Intn(int(gen.NumKeyClasses))),
 		ValClass: []gen.ValClass{gen.ValsMixed, gen.ValsMagic, gen.ValsShort}[r.Intn(3)], Prio: gen.PrioRegime(r.Intn(int(gen.NumPrioRegimes))), Mix: mixC14, Exotic: r.P(50)}
-	if hc.KeyClass == gen.KeysMixed {
+	if hc.KeyClass == gen.KeysMixed || hc.KeyClass == gen.KeysLong {
 		hc.NKeys = 5
 		ctx.Stats["c14.max-key-cases"]++
 	}
